@@ -561,7 +561,8 @@ __find_trno(const struct zif_s z[static 1U], int32_t t, int min, int max)
 		return -1;
 	} else if (UNLIKELY(t < zif_trans(z, min))) {
 		return -1;
-	} else if (UNLIKELY(t > zif_trans(z, max))) {
+	} else if (UNLIKELY(t >= zif_trans(z, max))) {
+		/* at or past the last known transition */
 		return max - 1;
 	}
 
